@@ -32,6 +32,10 @@
 (*   [op |-> "short", m, args, ret, tell, exc]  a call returned while f     *)
 (*      delivered short                                                     *)
 (* and every later event must be explained as if nothing had happened.     *)
+(* Results belong to the caller: [op |-> "edit"] (the harness edited, in   *)
+(* place, every list handed out so far) is no action of the archive, and   *)
+(* [op |-> "names", names, exc] (getnames() asked again afterwards) must   *)
+(* still list every member in order.                                       *)
 (* Batched: <<"ACCEPTED", tid>> is printed for every trace explained       *)
 (* completely, <<"AT", tid, l>> per explained event when TRACE_DIAG = "1". *)
 (***************************************************************************)
@@ -100,12 +104,21 @@ TShort(e) == /\ e.m \in 1..Len(mem)
 \* ArFile(fileobj=f) failed with the exception f raised: no archive object, nothing happened
 TOpenFault(e) == e.exc = "injected" /\ AOpenFault
 
+\* [op |-> "names", names, exc]: getnames() asked again in the middle of a history, after the harness edited the
+\* lists handed out before ([op |-> "edit"]: no action of the archive): still every member's name, in order
+TNames(e) == /\ ANames
+             /\ e.exc = ""
+             /\ e.names = [k \in 1..Len(mem) |-> mem[aret'.v[1][k]].name]
+TEdit(e) == ACallerEdits
+
 TStep == /\ l <= Len(Tr.events)
          /\ LET e == Tr.events[l] IN
               CASE e.op = "open" -> TOpen(e)
                 [] e.op = "openfault" -> TOpenFault(e)
                 [] e.op = "fault" -> TFault(e)
                 [] e.op = "short" -> TShort(e)
+                [] e.op = "names" -> TNames(e)
+                [] e.op = "edit" -> TEdit(e)
                 [] OTHER -> TCall(e)
          /\ l' = l + 1 /\ UNCHANGED tid
          /\ (Diag => PrintT(<<"AT", tid, l>>))
